@@ -63,7 +63,8 @@ def ops_for(alpha: List[Item]) -> List[Tuple]:
         if i % 3 == 0:
             ops.append(("insertneg1", i))
         ops.append(("remove", i))
-    ops += [("extend", 0, 1), ("extendgen", 2, 0), ("extenditer", 1, 1), ("pop",), ("pop0",), ("popmid",), ("clear",),
+    ops += [("extend", 0, 1), ("extendgen", 2, 0), ("extenditer", 1, 1), ("extendnil", 1, 0),
+            ("pop",), ("pop0",), ("popmid",), ("clear",),
             ("copy",), ("copycopy",), ("deepcopy",), ("pickle",), ("ctor",)]
     return ops
 
@@ -95,7 +96,19 @@ def apply_op(nil: Any, model: List[Item], op: Tuple, alpha: List[Item], cls: Any
         idx = {"insertneg1": -1, "insertneg2": -2, "insertfar": -100}[kind]
         nil.insert(idx, alpha[op[1]])
         model.insert(idx, alpha[op[1]])
-    elif kind in ("extend", "extendgen", "extenditer", "extendtuple"):
+    elif kind == "extendself":
+        # list.extend(self) doubles the list; it terminates
+        # (only for short lists: the histories are meant to stay small, and making n names
+        # unique is quadratic in the worst case)
+        if len(model) <= 16:
+            budget = 50000 + 5000 * len(model)
+            if common.runs_beyond(lambda: nil.extend(nil), budget):
+                raise Broken("extend-self-does-not-terminate",
+                             f"extend() of a list of {len(model)} item(s) with the list itself was "
+                             f"still running after {budget} source lines (list now has "
+                             f"{len(nil)} items)")
+            model.extend(list(model))
+    elif kind in ("extend", "extendgen", "extenditer", "extendtuple", "extendnil"):
         # list.extend takes any iterable: a list, a tuple, and one-shot iterables
         xs = [alpha[i] for i in op[1:]]
         arg: Any = xs
@@ -105,6 +118,8 @@ def apply_op(nil: Any, model: List[Item], op: Tuple, alpha: List[Item], cls: Any
             arg = iter(tuple(xs))
         elif kind == "extendtuple":
             arg = tuple(xs)
+        elif kind == "extendnil":
+            arg = cls(xs)  # a named item list itself (with names of its own for its items)
         nil.extend(arg)
         model.extend(xs)
     elif kind == "remove":
@@ -323,7 +338,8 @@ def random_histories(task: Tuple, col: common.Collector) -> None:
         kinds = ["append"] * 6 + ["insert0", "insertmid", "insertend", "insertneg1", "insertneg2",
                                   "insertfar", "remove", "remove", "pop",
                                   "pop0", "popmid", "extend", "extendgen", "extenditer",
-                                  "extendtuple", "copy", "copycopy", "ctor",
+                                  "extendtuple", "extendnil", "extendnil", "extendself",
+                                  "copy", "copycopy", "ctor",
                                   "deepcopy", "pickle"] + (["clear"] if r.random() < 0.3 else [])
         hist: List[Tuple] = []
         for _ in range(length):
@@ -331,6 +347,8 @@ def random_histories(task: Tuple, col: common.Collector) -> None:
             if k in ("append", "insert0", "insertmid", "insertend", "insertneg1", "insertneg2",
                      "insertfar", "remove"):
                 hist.append((k, r.randrange(len(alpha))))
+            elif k == "extendself":
+                hist.append((k,))
             elif k.startswith("extend"):
                 hist.append((k, r.randrange(len(alpha)), r.randrange(len(alpha))))
             else:
